@@ -10,6 +10,7 @@ import (
 	"net/http"
 	"runtime"
 	"sort"
+	"strings"
 	"sync"
 	"time"
 
@@ -64,6 +65,7 @@ type observed struct {
 	Err       string  `json:"err,omitempty"`
 	Missing   []int   `json:"missing_from_store,omitempty"`
 	Mode      string  `json:"mode"`
+	Skip      bool    `json:"skip,omitempty"`
 }
 
 func num(ch *chain.Chain, c cid.Cid) int {
@@ -79,7 +81,11 @@ func num(ch *chain.Chain, c cid.Cid) int {
 	return -1
 }
 
-func runCase(tc *tcase, pub *chain.Pub) (ob observed) {
+// runCase runs the case's sync.  variant "after-failure": the same call is made once before, against a publisher that answers the
+// second block request with status 500 -- the blocks that attempt stored are then held locally, and the sync proper must report
+// what it reports without them; variant "cancel-in-hook": the block hook cancels the caller's context at the second block it is
+// given -- the sync fails, or it is the whole sync.
+func runCase(tc *tcase, pub *chain.Pub, variant string) (ob observed) {
 	ch := pub.Chain
 	c := tc.Cfg
 	pub.Reset(c.N)
@@ -89,13 +95,18 @@ func runCase(tc *tcase, pub *chain.Pub) (ob observed) {
 		dst.Put(ch.Cids[i], b)
 	}
 	var mu sync.Mutex
+	var cancelInHook context.CancelFunc
 	// every other advertisement-chain case steers the segments with the library's own general block hook
 	general := dagsync.MakeGeneralBlockHook(func(c cid.Cid) (cid.Cid, error) { return ch.Prev(c), nil })
 	useGeneral := c.Kind == "ads" && (c.N+len(c.Pre)+c.SubSeg+c.CallSeg)%2 == 1
 	hook := func(p peer.ID, bc cid.Cid, actions dagsync.SegmentSyncActions) {
 		mu.Lock()
 		ob.Reported = append(ob.Reported, num(ch, bc))
+		nrep := len(ob.Reported)
 		mu.Unlock()
+		if variant == "cancel-in-hook" && nrep == 2 && cancelInHook != nil {
+			cancelInHook()
+		}
 		if useGeneral {
 			general(p, bc, actions)
 			return
@@ -134,40 +145,70 @@ func runCase(tc *tcase, pub *chain.Pub) (ob observed) {
 	if head == 0 {
 		head = c.N
 	}
-	var got cid.Cid
-	switch c.Kind {
-	case "ads":
-		var so []dagsync.SyncOption
-		if c.Explicit != 0 {
-			so = append(so, dagsync.WithHeadAdCid(ch.Cid(c.Explicit)))
+	doSync := func(ctx context.Context) (got cid.Cid, err error) {
+		switch c.Kind {
+		case "ads":
+			var so []dagsync.SyncOption
+			if c.Explicit != 0 {
+				so = append(so, dagsync.WithHeadAdCid(ch.Cid(c.Explicit)))
+			}
+			if c.StopOpt != 0 {
+				so = append(so, dagsync.WithStopAdCid(ch.Cid(c.StopOpt)))
+			}
+			if c.Resync {
+				so = append(so, dagsync.WithAdsResync(true))
+			}
+			if c.CallDepth != 0 {
+				so = append(so, dagsync.ScopedDepthLimit(int64(c.CallDepth)))
+			}
+			if c.CallSeg != 0 {
+				so = append(so, dagsync.ScopedSegmentDepthLimit(int64(c.CallSeg)))
+			}
+			got, err = sub.SyncAdChain(ctx, pub.AddrInfo(), so...)
+		case "entries":
+			var so []dagsync.SyncOption
+			if c.CallDepth != 0 {
+				so = append(so, dagsync.ScopedDepthLimit(int64(c.CallDepth)))
+			}
+			err = sub.SyncEntries(ctx, pub.AddrInfo(), ch.Cid(head), so...)
+			got = ch.Cid(head)
+		case "one":
+			err = sub.SyncOneEntry(ctx, pub.AddrInfo(), ch.Cid(head))
+			got = ch.Cid(head)
+		case "all":
+			err = sub.SyncHAMTEntries(ctx, pub.AddrInfo(), ch.Cid(head))
+			got = ch.Cid(head)
 		}
-		if c.StopOpt != 0 {
-			so = append(so, dagsync.WithStopAdCid(ch.Cid(c.StopOpt)))
-		}
-		if c.Resync {
-			so = append(so, dagsync.WithAdsResync(true))
-		}
-		if c.CallDepth != 0 {
-			so = append(so, dagsync.ScopedDepthLimit(int64(c.CallDepth)))
-		}
-		if c.CallSeg != 0 {
-			so = append(so, dagsync.ScopedSegmentDepthLimit(int64(c.CallSeg)))
-		}
-		got, err = sub.SyncAdChain(ctx, pub.AddrInfo(), so...)
-	case "entries":
-		var so []dagsync.SyncOption
-		if c.CallDepth != 0 {
-			so = append(so, dagsync.ScopedDepthLimit(int64(c.CallDepth)))
-		}
-		err = sub.SyncEntries(ctx, pub.AddrInfo(), ch.Cid(head), so...)
-		got = ch.Cid(head)
-	case "one":
-		err = sub.SyncOneEntry(ctx, pub.AddrInfo(), ch.Cid(head))
-		got = ch.Cid(head)
-	case "all":
-		err = sub.SyncHAMTEntries(ctx, pub.AddrInfo(), ch.Cid(head))
-		got = ch.Cid(head)
+		return got, err
 	}
+	if variant == "after-failure" {
+		blocks := 0
+		pub.Intercept = func(w http.ResponseWriter, req *http.Request, seq int) bool {
+			if strings.HasSuffix(req.URL.Path, "/head") {
+				return false
+			}
+			blocks++
+			if blocks == 2 {
+				http.Error(w, "injected", http.StatusInternalServerError)
+				return true
+			}
+			return false
+		}
+		_, ferr := doSync(ctx)
+		pub.Intercept = nil
+		if ferr == nil {
+			ob.Skip = true // fewer than two blocks to fetch: the attempt did not fail
+			return
+		}
+		mu.Lock()
+		ob.Reported = nil
+		mu.Unlock()
+		pub.Reset(c.N)
+	}
+	if variant == "cancel-in-hook" {
+		ctx, cancelInHook = context.WithCancel(ctx)
+	}
+	got, err := doSync(ctx)
 	if err != nil {
 		ob.Err = err.Error()
 	}
@@ -295,6 +336,7 @@ func Run(args []string) *rep.Report {
 		}
 	}()
 	idx := -1
+	variantRuns := 0
 	modes := map[string]int{}
 	err := rep.ReadNDJSON(*file, func(line []byte) error {
 		idx++
@@ -311,7 +353,7 @@ func Run(args []string) *rep.Report {
 		if err != nil {
 			return err
 		}
-		ob := runCase(tc, pub)
+		ob := runCase(tc, pub, "")
 		ob.Mode = []string{"plain-http", "libp2p-http", "libp2p-stream"}[mode]
 		modes[ob.Mode]++
 		r.Eval(len(tc.Reported) > 1 || tc.Segmented)
@@ -319,11 +361,52 @@ func Run(args []string) *rep.Report {
 			r.Sample(tc)
 		}
 		if k, d := judge(tc, &ob); k != "" {
-			ob2 := runCase(tc, pub) // confirm before alarm
+			ob2 := runCase(tc, pub, "") // confirm before alarm
 			if k2, _ := judge(tc, &ob2); k2 == k {
 				r.Diverge(rep.Divergence{Key: k, Case: tc.Cfg, Expected: tc, Observed: ob, Detail: ob.Mode + ": " + d})
 			} else {
 				r.Inconclusive++
+			}
+		}
+		if ((idx / *sample)/sn)%4 == 1 {
+			var variants []string
+			if mode == 0 && len(tc.Requested) >= 2 {
+				variants = append(variants, "after-failure")
+			}
+			if tc.Segmented && len(tc.Reported) >= 3 {
+				variants = append(variants, "cancel-in-hook")
+			}
+			for _, v := range variants {
+				run := func() (string, string, observed) {
+					vo := runCase(tc, pub, v)
+					vo.Mode = ob.Mode + " " + v
+					if vo.Skip || (v == "cancel-in-hook" && vo.Err != "") {
+						return "", "", vo // nothing to fetch twice / the cancelled sync failed: both fine
+					}
+					vt := *tc
+					if v == "after-failure" {
+						vt.Requested = vo.Requested // what is held locally after the failed attempt is not requested again (checked below)
+						for _, q := range vo.Requested {
+							found := false
+							for _, w := range tc.Requested {
+								found = found || q == w
+							}
+							if !found {
+								return "requested-blocks", fmt.Sprintf("after a failed attempt the publisher was asked for %v, the sync proper asks for %v at most", vo.Requested, tc.Requested), vo
+							}
+						}
+					}
+					k, d := judge(&vt, &vo)
+					return k, d, vo
+				}
+				if k, d, vo := run(); k != "" {
+					if k2, _, _ := run(); k2 == k {
+						r.Diverge(rep.Divergence{Key: k, Case: tc.Cfg, Expected: tc, Observed: vo, Detail: vo.Mode + ": " + d})
+					} else {
+						r.Inconclusive++
+					}
+				}
+				variantRuns++
 			}
 		}
 		if idx%200 == 0 {
@@ -334,6 +417,7 @@ func Run(args []string) *rep.Report {
 	if err != nil {
 		r.SetExtra("read_error", err.Error())
 	}
+	r.AddExtra("variant_runs_after_failure_or_cancel", variantRuns)
 	for k, v := range modes {
 		r.SetExtra("syncs_"+k, v)
 	}
